@@ -101,6 +101,7 @@ struct SimThread {
   bool quiet;
   uint64_t points;
   int pcq; // pc-guard quantum
+  uint64_t pcq_rng;
   uint32_t mutex_bitset;
 };
 
@@ -219,13 +220,17 @@ static inline void fp_mix(uint64_t v) {
 // ------------------------------------------------------------------------------------------
 // real function lookup
 // ------------------------------------------------------------------------------------------
-#define REAL(ret, name, ...)                     \
-  typedef ret (*name##_fn)(__VA_ARGS__);         \
-  static name##_fn real_##name() {               \
-    static name##_fn f;                          \
-    if (!f)                                      \
-      f = (name##_fn)dlsym(RTLD_NEXT, #name);    \
-    return f;                                    \
+// When a sanitizer runtime is linked in, its interceptor (__interceptor_<name>) is the "real"
+// function we must chain to, so that the runtime keeps seeing thread creation/joins etc.
+#define REAL(ret, name, ...)                                          \
+  typedef ret (*name##_fn)(__VA_ARGS__);                              \
+  static name##_fn real_##name() {                                    \
+    static name##_fn f;                                               \
+    if (!f)                                                           \
+      f = (name##_fn)dlsym(RTLD_DEFAULT, "__interceptor_" #name);     \
+    if (!f)                                                           \
+      f = (name##_fn)dlsym(RTLD_NEXT, #name);                         \
+    return f;                                                         \
   }
 #define REALV(ret, name, ver, ...)                     \
   typedef ret (*name##_fn)(__VA_ARGS__);               \
@@ -563,6 +568,12 @@ static bool load_replay(const char* path) {
   return true;
 }
 
+extern "C" int __lsan_do_recoverable_leak_check() __attribute__((weak));
+static int g_memonly;
+extern "C" void sim_set_memonly(int on) {
+  g_memonly = on;
+}
+
 extern "C" void sim_fail(const char* cls, const char* fmt, ...) {
   static int failing;
   if (__atomic_exchange_n(&failing, 1, __ATOMIC_SEQ_CST)) {
@@ -581,6 +592,21 @@ extern "C" void sim_fail(const char* cls, const char* fmt, ...) {
     fflush(g.tracef);
   }
   char buf[8192];
+  if (g_memonly) {
+    // whole-library memory-safety check (C11): an oracle violation of some other property ends the
+    // run but is only "incidental" here; still look for leaked memory before leaving
+    bool hang = !strncmp(cls, "hang", 4) || !strncmp(cls, "deadlock", 8);
+    if (!hang && __lsan_do_recoverable_leak_check && __lsan_do_recoverable_leak_check()) {
+      sim_result_line(buf, sizeof buf, "leak", "lsan", msg);
+      ssize_t w2 = write(1, buf, strlen(buf));
+      (void)w2;
+      _exit(78);
+    }
+    sim_result_line(buf, sizeof buf, "incidental", cls, msg);
+    ssize_t w3 = write(1, buf, strlen(buf));
+    (void)w3;
+    _exit(0);
+  }
   sim_result_line(buf, sizeof buf, "violation", cls, msg);
   ssize_t w = write(1, buf, strlen(buf));
   (void)w;
@@ -964,7 +990,7 @@ extern "C" void sim_point(int kind, const void* addr) {
   if (kind == SP_LOAD) {
     t->load_streak++;
     t->last_load_step = g.step;
-  } else if (kind != SP_FENCE && kind != SP_USER && kind != SP_PCGUARD) {
+  } else if (kind != SP_FENCE && kind != SP_USER && kind != SP_PCGUARD && kind != SP_PLAIN_R) {
     t->load_streak = 0;
     g.last_write_step = g.step;
   }
@@ -973,6 +999,158 @@ extern "C" void sim_point(int kind, const void* addr) {
   int target = decide_switch(t, false);
   if (target >= 0 && target != t->id)
     switch_to(target);
+}
+
+// ------------------------------------------------------------------------------------------
+// SIM+ASAN engine: clang cannot combine the tsan pass with AddressSanitizer, so the atomic seam
+// is unavailable there.  Instead the code under test is built with -fsanitize-coverage=
+// trace-pc-guard and every instrumented edge counts down a per-thread quantum; at zero it is a
+// simulation point (pre-emption at basic-block granularity; every loop has a back edge, so no
+// spin loop can keep the token).  The quantum sequence is a pure function of (seed, thread id),
+// independent of PRNG/replay mode, so step numbers line up in a replay.
+// ------------------------------------------------------------------------------------------
+static int g_pcq_max; // 0 = engine off
+// Per-guard classification (lazily, by the symbol the guard lives in): 1 = code under test,
+// 2 = C++ standard library instantiation.  The linker keeps ONE copy of every inline/template
+// function, so a std::vector<int>::resize called from (uninstrumented) harness code may well be the
+// instrumented copy emitted by a dispenso .cpp file; the harness's own bookkeeping must never be
+// pre-empted in the middle of a container operation, so guards inside std:: code are not points.
+static uint8_t* g_guard_cls;
+static uint32_t g_guard_n;
+extern "C" void __sanitizer_cov_trace_pc_guard_init(uint32_t* start, uint32_t* stop) {
+  for (uint32_t* p = start; p < stop; ++p)
+    if (!*p)
+      *p = ++g_guard_n;
+  g_guard_cls = (uint8_t*)realloc(g_guard_cls, g_guard_n + 1);
+  memset(g_guard_cls, 0, g_guard_n + 1);
+}
+// Symbol lookup through the executable's own .symtab (covers internal-linkage functions and
+// lambdas, which dladdr cannot see).
+struct SymEnt {
+  uintptr_t lo, hi;
+  uint8_t cls;
+};
+static SymEnt* g_syms;
+static size_t g_nsyms;
+static bool has_prefix(const char* s, const char* p) {
+  return !strncmp(s, p, strlen(p));
+}
+static uint8_t classify_name(const char* s) {
+  // C++ standard library and its helpers: never a pre-emption point (see above)
+  if (has_prefix(s, "_ZNSt") || has_prefix(s, "_ZNKSt") || has_prefix(s, "_ZSt") || has_prefix(s, "_ZN9__gnu_cxx") ||
+      has_prefix(s, "_ZNK9__gnu_cxx") || has_prefix(s, "_ZNSa") || has_prefix(s, "_ZNSs") || has_prefix(s, "_ZZNSt") ||
+      has_prefix(s, "_ZZNKSt") || has_prefix(s, "_ZNVSt") || has_prefix(s, "_ZNSi") || has_prefix(s, "_ZNSo"))
+    return 2;
+  // harness code: workload files keep everything in an anonymous namespace, helpers live in hx::
+  if (has_prefix(s, "_ZN12_GLOBAL__N_1") || has_prefix(s, "_ZNK12_GLOBAL__N_1") || has_prefix(s, "_ZZN12_GLOBAL__N_1") ||
+      has_prefix(s, "_ZZNK12_GLOBAL__N_1") || has_prefix(s, "_ZN2hx") || has_prefix(s, "_ZNK2hx") || has_prefix(s, "_ZZN2hx") ||
+      has_prefix(s, "_ZL") || !strcmp(s, "main"))
+    return 2;
+  return 1;
+}
+#include <elf.h>
+#include <link.h>
+#include <sys/mman.h>
+#include <sys/stat.h>
+static int phdr_cb(struct dl_phdr_info* info, size_t, void* data) {
+  *(uintptr_t*)data = (uintptr_t)info->dlpi_addr; // first entry = main program
+  return 1;
+}
+static void load_symtab() {
+  static bool done;
+  if (done)
+    return;
+  done = true;
+  uintptr_t bias = 0;
+  dl_iterate_phdr(phdr_cb, &bias);
+  int fd = open("/proc/self/exe", O_RDONLY);
+  if (fd < 0)
+    return;
+  struct stat sb;
+  if (fstat(fd, &sb) != 0) {
+    close(fd);
+    return;
+  }
+  char* base = (char*)mmap(nullptr, (size_t)sb.st_size, PROT_READ, MAP_PRIVATE, fd, 0);
+  close(fd);
+  if (base == MAP_FAILED)
+    return;
+  Elf64_Ehdr* eh = (Elf64_Ehdr*)base;
+  Elf64_Shdr* sh = (Elf64_Shdr*)(base + eh->e_shoff);
+  for (int i = 0; i < eh->e_shnum; ++i) {
+    if (sh[i].sh_type != SHT_SYMTAB)
+      continue;
+    Elf64_Sym* syms = (Elf64_Sym*)(base + sh[i].sh_offset);
+    size_t n = sh[i].sh_size / sizeof(Elf64_Sym);
+    const char* str = base + sh[sh[i].sh_link].sh_offset;
+    g_syms = (SymEnt*)malloc(n * sizeof(SymEnt));
+    for (size_t k = 0; k < n; ++k) {
+      if (ELF64_ST_TYPE(syms[k].st_info) != STT_FUNC || !syms[k].st_size)
+        continue;
+      SymEnt e;
+      e.lo = bias + syms[k].st_value;
+      e.hi = e.lo + syms[k].st_size;
+      e.cls = classify_name(str + syms[k].st_name);
+      g_syms[g_nsyms++] = e;
+    }
+    std::sort(g_syms, g_syms + g_nsyms, [](const SymEnt& a, const SymEnt& b) { return a.lo < b.lo; });
+  }
+  munmap(base, (size_t)sb.st_size);
+}
+static uint8_t classify_guard(void* pc) {
+  load_symtab();
+  uintptr_t a = (uintptr_t)pc;
+  size_t lo = 0, hi = g_nsyms;
+  while (lo < hi) {
+    size_t mid = (lo + hi) / 2;
+    if (g_syms[mid].lo <= a)
+      lo = mid + 1;
+    else
+      hi = mid;
+  }
+  if (lo > 0 && a < g_syms[lo - 1].hi)
+    return g_syms[lo - 1].cls;
+  return 1;
+}
+
+// "fine" variants: plain memory accesses of code under test are points (see tsan_shim.cpp)
+struct PcCache {
+  uintptr_t pc;
+  uint8_t cls;
+};
+static PcCache g_pc_cache[1 << 16];
+extern "C" void sim_plain_point(void* pc, const void* addr, int is_write) {
+  SimThread* t = tl_self;
+  if (!t || !g.active || t->st != T_RUNNABLE)
+    return;
+  uintptr_t a = (uintptr_t)pc;
+  PcCache& e = g_pc_cache[(a >> 2) & 0xffff];
+  if (e.pc != a) {
+    e.pc = a;
+    e.cls = classify_guard(pc);
+  }
+  if (e.cls != 1)
+    return;
+  sim_point(is_write ? SP_PLAIN_W : SP_PLAIN_R, addr);
+}
+
+extern "C" void __sanitizer_cov_trace_pc_guard(uint32_t* guard) {
+  SimThread* t = tl_self;
+  if (!t || !g_pcq_max || !g.active || t->st != T_RUNNABLE)
+    return;
+  uint32_t id = *guard;
+  if (id <= g_guard_n) {
+    uint8_t c = g_guard_cls[id];
+    if (!c)
+      c = g_guard_cls[id] = classify_guard(__builtin_return_address(0));
+    if (c == 2)
+      return;
+  }
+  if (--t->pcq > 0)
+    return;
+  t->pcq_rng = t->pcq_rng * 6364136223846793005ull + 1442695040888963407ull;
+  t->pcq = 1 + (int)((t->pcq_rng >> 33) % (uint64_t)g_pcq_max);
+  sim_point(SP_PCGUARD, nullptr);
 }
 
 // ------------------------------------------------------------------------------------------
@@ -1488,6 +1666,8 @@ extern "C" int pthread_create(pthread_t* th, const pthread_attr_t* attr, void* (
   nt->arg = arg;
   nt->st = T_RUNNABLE;
   nt->prio = (int64_t)(g.r_sched.next() >> 16);
+  nt->pcq_rng = mix64(g.opts.seed, 1000 + (uint64_t)nt->id);
+  nt->pcq = 1;
   int rc = real_pthread_create()(&nt->real, attr, trampoline, nt);
   if (rc)
     return rc;
@@ -1809,6 +1989,16 @@ extern "C" void sim_begin(const SimOpts* o) {
   t->id = 0;
   t->st = T_RUNNABLE;
   t->prio = (int64_t)(g.r_sched.next() >> 16);
+  t->pcq_rng = mix64(o->seed, 1000);
+  t->pcq = 1;
+  if (o->pcguard_quantum_max > 0) {
+    static const int qs[] = {1, 3, 10, 40, 150};
+    g_pcq_max = qs[cfg.below(5)];
+    if (g_pcq_max > o->pcguard_quantum_max)
+      g_pcq_max = o->pcguard_quantum_max;
+  } else {
+    g_pcq_max = 0;
+  }
   g.nth = 1;
   g.cur = 0;
   g.max_threads_live = 1;
